@@ -461,13 +461,13 @@ def check_optional_chars(idx: Index, rep: Report) -> None:
 
 
 def check(idx: Index, rep: Report, tier: str) -> str:
-    check_redos(idx, rep, tier)
-    check_unicode_predicates(idx, rep)
-    check_sites(idx, rep)
-    check_name_hint_guards(idx, rep)
-    check_consume_token(idx, rep)
-    check_external_raisers(idx, rep)
-    check_optional_chars(idx, rep)
+    rep.run(check_redos, idx, rep, tier)
+    rep.run(check_unicode_predicates, idx, rep)
+    rep.run(check_sites, idx, rep)
+    rep.run(check_name_hint_guards, idx, rep)
+    rep.run(check_consume_token, idx, rep)
+    rep.run(check_external_raisers, idx, rep)
+    rep.run(check_optional_chars, idx, rep)
     return (
         "Regular-language ambiguity analysis of every regex of the lexer/parser modules (ReDoS), Unicode-width check of "
         "the lexer's digit dispatch, and a guard / sibling-agreement classification of every raise, assert and partial "
